@@ -296,16 +296,16 @@ class Bes3SymMatrixArrayFactory(Factory):
         return bcpp.Bes3SymMatrixArrayReader(self.name, self.flat_size, self.full_dim)
 
     def make_awkward_content(self, raw_data: np.ndarray):
-        return awkward.contents.NumpyArray(
-            raw_data.reshape(
-                -1,
-                self.full_dim,
-                self.full_dim,
-            )
-        )
+        # RegularArray levels (instead of a NumpyArray with inner_shape) so that the form can be
+        # materialised from placeholder buffers when the branch is projected away in lazy reading
+        content = awkward.contents.NumpyArray(raw_data.reshape(-1))
+        content = awkward.contents.RegularArray(content, self.full_dim)
+        return awkward.contents.RegularArray(content, self.full_dim)
 
     def make_awkward_form(self):
-        return awkward.forms.NumpyForm("float64", inner_shape=[self.full_dim, self.full_dim])
+        form = awkward.forms.NumpyForm("float64")
+        form = awkward.forms.RegularForm(form, self.full_dim)
+        return awkward.forms.RegularForm(form, self.full_dim)
 
 
 uproot_custom.registered_factories |= {
